@@ -152,13 +152,32 @@ def amps_of(score):
     return [float(n.amp) for c in score.chords for m in c.score.values() for n in m.notes]
 
 
-def load_score(text, amps=None):
+def plain_rests(score):
+    """the same score with every rest / continuation held as a plain `Note` of type 'r' / 'l' instead of an instance of
+    the `Silence` / `Continuation` subclasses — what `Note.replace(x, r)`, `Melody.replace` and `Note('r', 0, 0, d)`
+    produce.  Such a note prints, compares and must render exactly like the subclass instance (seed C09-6 recognised
+    rests with isinstance)."""
+    from musiclang import Note, Score
+    out = []
+    for c in score.chords:
+        c = c.copy()
+        for m in c.score.values():
+            for i, n in enumerate(m.notes):
+                if n.type in ('r', 'l') and type(n) is not Note:
+                    m.notes[i] = Note(n.type, 0, 0, n.duration, tags=set(n.tags), tempo=n.tempo, pedal=n.pedal)
+        out.append(c)
+    return Score(out)
+
+
+def load_score(text, amps=None, plain=False):
     """rebuild a score from its text form (replay files store scores as text); `amps` restores amplitudes that the
-    text form cannot express"""
+    text form cannot express; `plain` holds rests / continuations as plain notes (see plain_rests)"""
     from musiclang import Score, Chord
     s = Score.from_str(text)
     if isinstance(s, Chord):
         s = Score([s])
+    if plain:
+        s = plain_rests(s)
     if amps:
         it = iter(amps)
         for c in s.chords:
